@@ -129,6 +129,7 @@ func (s *subscriptionImpl) Unsubscribe() {
 	finalizers := s.finalizers
 	s.finalizers = make([]func(), 0)
 	s.mu.Unlock()
+	verifPoint("subscription.unsub.unlocked")
 
 	var errs []error
 
